@@ -11,7 +11,8 @@ from concurrent.futures import ThreadPoolExecutor
 
 REPO = os.environ.get("VERIF_REPO", "/repo")
 VERIF = os.path.dirname(os.path.dirname(os.path.abspath(__file__)))
-BUILD = os.path.join(VERIF, "build")
+# a tree other than /repo (sensitivity experiments) gets its own build directory, so that runs do not disturb each other
+BUILD = os.path.join(VERIF, "build" if os.path.abspath(REPO) == "/repo" else "build_" + hashlib.md5(os.path.abspath(REPO).encode()).hexdigest()[:8])
 NCPU = os.cpu_count() or 4
 
 TOOLS = ["gensquashfs", "rdsquashfs", "tar2sqfs", "sqfs2tar", "sqfsdiff"]
